@@ -481,7 +481,8 @@ def ocell_spec(c):
         if not c[1]:
             return None
         r = py_fres(c[1])
-        return r[1] if r[0] == "FInt" else (float(c[1]) if r[0] == "FFlt" else (c[1] if r[0] == "FValErr" else None))
+        # not a number, NaN or +-infinity: the attribute text is kept
+        return r[1] if r[0] == "FInt" else (float(c[1]) if r[0] == "FFlt" else c[1])
     if k in "DT":
         return c[1] or None
     return c[1]
@@ -1022,6 +1023,19 @@ def gen_tables(ctx):
     txt += "Definition live_remove_tags_html : list str := " + coq_list([coq_str(t) for t in sorted(H.REMOVE_TAGS)]) + ".\n"
     txt += "Definition live_remove_tags_epub : list str := " + coq_list([coq_str(t) for t in sorted(EP.REMOVE_TAGS)]) + ".\n"
     txt += "Definition live_void_remove_tags_epub : list str := " + coq_list([coq_str(x) for x in sorted(getattr(EP, '_VOID_REMOVE_TAGS', set()))]) + ".\n"
+    wr = []
+    for c in range(0x110000):
+        if re.match(r"\w", chr(c)):
+            if wr and wr[-1][1] == c - 1:
+                wr[-1][1] = c
+            else:
+                wr.append([c, c])
+    txt += "(* code points matched by regex \\w, as inclusive ranges *)\n"
+    txt += "Definition py_word_ranges : list (N * N) := [" + "; ".join(f"({a},{b})" for a, b in wr) + "].\n"
+    txt += "Definition py_is_word (c : N) : bool := existsb (fun r => (fst r <=? c) && (c <=? snd r)) py_word_ranges.\n"
+    from sharepoint2text.parsing.extractors.ms_legacy import rtf_extractor as RTF
+    txt += "Definition live_rtf_special_chars : list (str * N) := " + coq_list(
+        [f"({coq_str(k)}, {ord(v)})" for k, v in RTF._RtfParser.SPECIAL_CHARS.items()]) + ".\n"
     txt += "Definition live_ods_skip_tags : list str := " + coq_list([coq_str(short(t)) for t in sorted(ODS._TEXT_SKIP_TAGS)]) + ".\n"
     txt += "Definition live_odt_skip_tags : list str := " + coq_list([coq_str(short(t)) for t in sorted(getattr(ODT, '_TEXT_SKIP_TAGS', set()))]) + ".\n"
     txt += "Definition live_odp_skip_tags : list str := " + coq_list([coq_str(short(t)) for t in sorted(getattr(ODP, '_TEXT_SKIP_TAGS', set()))]) + ".\n"
@@ -1148,7 +1162,7 @@ def witnesses(ctx, batch):
     tbls, tabs, _, err = ods_run(ods_file([inf]))
     if tabs is None:
         ctx.finding("ods-non-finite-number-aborts-extraction",
-                    f"ODS: a numeric cell whose office:value is infinite (e.g. 1e400) makes read_ods fail for the whole file ({err})",
+                    f"ODS: read_ods fails for the whole file on a generated sheet ({err}); a non-finite office:value (1e400, inf) must be kept as text",
                     {"format": "ods", "sheet_xml": nd_xml(inf), "error": err})
     # RTF: two tables separated by an empty paragraph
     gs = [[["a", "b"]], [["c", "d"]]]
@@ -1308,12 +1322,16 @@ def run(ctx):
         "hand-written model of the table walkers (C13/Model.v), tied by the differential runs below",
         "harness writers (zip + XML templates, openpyxl for xlsx, strings for html/epub/rtf) and the Python mirrors of the "
         "Coq render functions — Coq re-checks `parsed tree = render doc` for every structured case",
-        "XLS: _read_content is driven with an xlrd Book stand-in (no OLE2 writer); RTF: property oracle only (regex walker not modelled)",
+        "XLS: _read_content is driven with an xlrd Book stand-in (no OLE2 writer)",
+        "RTF: regexes modelled as hand-written matchers (re_sub/re_find_all/re_split + one matcher per pattern), tied by "
+        "document-, _strip_rtf_simple- and _extract_table_cells-level correspondences; assumes ASCII digits after \\u / control "
+        "words and no code point that case-folds into ASCII or changes length under str.lower() (U+0130, U+0131, U+017F, U+212A); "
+        "regex \\w set dumped as ranges (py_is_word)",
     ]
     ctx.assumptions += ["CPython 3.12 str/regex whitespace; int(str(n)) = n for the repeat counts the renderer writes"]
     gen_tables(ctx)
 
-    ok1, _ = ctx.prove("C13/Props.v", ["C13/ProofsHtml.vo", "C13/ProofsOds.vo", "C13/ProofsSheets.vo", "C13/ProofsTree.vo"],
+    ok1, _ = ctx.prove("C13/Props.v", timeout=400, deps=["C13/ProofsHtml.vo", "C13/ProofsOds.vo", "C13/ProofsSheets.vo", "C13/ProofsTree.vo", "C13/ProofsRtf.vo"],
                        expected=["C13_get_dim_is_shape", "C13_get_dim_rect", "C13_xls_get_dim_is_shape",
                                  "C13_docx_tables_flat", "C13_docx_adjacent", "C13_docx_tables_preorder", "C13_docx_toplevel_refuted",
                                  "C13_pptx_table_roundtrip", "C13_odt_tables_flat", "C13_odt_nested_refuted", "C13_odp_table_flat",
@@ -1321,11 +1339,16 @@ def run(ctx):
                                  "C13_epub_tables_roundtrip", "C13_epub_nested_refuted",
                                  "C13_ods_plain_roundtrip", "C13_ods_rle_roundtrip", "C13_ods_repeat_cap_refuted",
                                  "C13_xlsx_sheet_partial", "C13_xlsx_empty_header_refuted", "C13_xlsx_title_row_refuted",
-                                 "C13_xlsx_typed_header_refuted", "C13_xls_sheet_partial", "C13_xls_duplicate_header_refuted",
+                                 "C13_xlsx_typed_header_refuted", "C13_xlsx_date_header_refuted", "C13_xlsx_typed_values",
+                                 "C13_ods_cell_comment_skipped", "C13_ods_nonfinite_kept_as_text",
+                                 "C13_rtf_tables_single", "C13_rtf_pad_rows_id", "C13_rtf_tables_long_separator", "C13_rtf_adjacent_tables_merged_refuted", "C13_rtf_get_dim",
+                                 "C13_xls_sheet_partial", "C13_xls_duplicate_header_refuted",
                                  "C13_xls_header_only_refuted"])
-    ok2, _ = ctx.prove("C13/Inst.v", ["Gen/C13Tables.vo", "C13/Corr.vo", "C13/Witness.vo"],
-                       expected=["C13_live_tags_match", "C13_remove_tags_match", "C13_void_remove_tags_match", "C13_odf_skip_tags_match", "C13_ws_ascii_agrees",
-                                 "C13_span_not_skipped"])
+    ctx.prove("C13/Inst.v", timeout=300, deps=["Gen/C13Tables.vo", "C13/Corr.vo", "C13/Witness.vo"], expected=["C13_live_tags_match"])
+    ctx.prove("C13/InstRemove.v", timeout=300, deps=["Gen/C13Tables.vo"], expected=["C13_remove_tags_match", "C13_void_remove_tags_match"])
+    ctx.prove("C13/InstSkip.v", timeout=300, deps=["Gen/C13Tables.vo"], expected=["C13_odf_skip_tags_match", "C13_span_not_skipped"])
+    ctx.prove("C13/InstWs.v", timeout=300, deps=["Gen/C13Tables.vo"], expected=["C13_ws_ascii_agrees"])
+    ctx.prove("C13/InstRtf.v", timeout=300, deps=["Gen/C13Tables.vo", "C13/ProofsRtf.vo"], expected=["C13_rtf_special_chars_match", "C13_rtf_oracle_facts", "C13_rtf_tables_single_live"])
 
     n = ctx.n(60, 450)
     B = {}
@@ -1449,7 +1472,7 @@ def run(ctx):
         ctx.case(("ods", rle_mode, g), bool(tabs and tabs[0]), "ods:rle-wide" if wide else ("ods:rle" if rle_mode else "ods:plain"))
         if tabs is None:
             ctx.finding("ods-non-finite-number-aborts-extraction",
-                        f"ODS: a numeric cell whose office:value is infinite (e.g. 1e400) makes read_ods fail for the whole file ({err})",
+                        f"ODS: read_ods fails for the whole file on a generated sheet ({err}); a non-finite office:value (1e400, inf) must be kept as text",
                         {"format": "ods", "grid": g, "error": err})
             continue
         check_dims(ctx, "ods", tabs, dims, dim_cases)
@@ -1666,25 +1689,124 @@ def run(ctx):
         if (dm[0], dm[1]) != (len(t), max((len(x) for x in t), default=0)):
             ctx.finding("xls-get_dim-not-shape", f"XLS: get_dim() {dm} is not the shape of get_table()", {"format": "xls", "grid": repr(pg)})
 
-    # ---------------- RTF (oracle only)
-    for i in range(n // 3):
-        gs = [[[rtext(rng, 1, 4, "abcXYZ 9") .strip() or "q" for _ in range(rng.randint(1, 4))] for _ in range(rng.randint(1, 3))]
-              for _ in range(rng.randint(1, 2))]
-        sep = ["\\pard\\par\n", "\\pard Between the two tables.\\par\n",
-               "\\pard " + "A long separating paragraph between the tables, well over one hundred characters in the source text. " * 2 + "\\par\n"][i % 3]
-        tabs, dims = rtf_run(rtf_doc(gs, sep))
+    # ---------------- RTF
+    from sharepoint2text.parsing.extractors.ms_legacy import rtf_extractor as RTF
+    T3r = "list (list (list str))"
+    b_rtf = batch("rtf", "(corr_rtf py_is_ws py_is_word)", f"list rblock * str * {T3r}")
+    b_rtf_t = batch("rtftext", "(corr_rtf_text py_is_ws py_is_word)", f"str * {T3r}")
+    b_rtf_s = batch("rtfstrip", "(corr_rtf_strip py_is_ws)", "str * str")
+    b_rtf_c = batch("rtfcells", "(corr_rtf_cells py_is_ws py_is_word)", "str * list str")
+    RW = ["a", "b", "Z", "9", "x y", "caf\u00e9", "\u4e2d", "Total", "q-1", "7.5", "ab cd ef"]
+    def rplain(lo=1, hi=3):
+        return " ".join(rng.choice(RW) for _ in range(rng.randint(lo, hi)))
+    def coq_rdoc(d):
+        return coq_list([f"(RPara {coq_str(b[1])})" if b[0] == "p" else f"(RTable {coq_sgrid(b[1])})" for b in d])
+    def rtf_render(d):
+        out = "{\\rtf1\\ansi "
+        for b in d:
+            if b[0] == "p":
+                out += "\\pard " + b[1] + "\\par\n"
+            else:
+                for r in b[1]:
+                    out += "\\trowd" + "".join(" " + c + "\\cell" for c in r) + "\\row\n"
+        return out + "}"
+    def rtf_impl(text):
+        try:
+            return tables_of(next(iter(RTF.read_rtf(io.BytesIO(text.encode("utf-8"))))))
+        except Exception as e:  # noqa
+            return None, repr(e)
+    rtf_fixed = [[("t", [["a", "b"]]), ("p", "Table 2"), ("t", [["c", "d"]])],      # Coq: rtf_adjacent_witness
+                 [("t", [["a"]]), ("t", [["c"]])],                                   # rtf_adjacent_direct_witness
+                 [("p", "Intro"), ("t", [["a b", "c"], ["d", "e"]]), ("p", "End")],  # rtf_single_witness
+                 [("t", [["a", "b"]]), ("p", "a" * 95), ("t", [["c", "d"]])]]         # rtf_long_separator_witness
+    for i in range(n + len(rtf_fixed)):
+        d = []
+        if i >= n:
+            d = rtf_fixed[i - n]
+        elif rng.random() < 0.7:
+            d.append(("p", rplain()))
+        nt = rng.randint(1, 3) if i < n else 0
+        for k in range(nt):
+            d.append(("t", [[rplain(1, 2) if rng.random() < 0.9 else "" for _ in range(rng.randint(1, 4) if i % 5 == 0 else 3)]
+                            for _ in range(rng.randint(1, 3))]))
+            if k < nt - 1:
+                sepk = rng.random()
+                if sepk < 0.4:
+                    d.append(("p", " ".join(rng.choice(RW) for _ in range(40))))      # long separating paragraph
+                elif sepk < 0.7:
+                    d.append(("p", rplain()))                                           # short one
+        if i < n and rng.random() < 0.5:
+            d.append(("p", rplain()))
+        text = rtf_render(d)
+        tabs, dims = rtf_impl(text)
+        if tabs is None:
+            ctx.finding("rtf-extraction-raised", f"RTF: read_rtf raised on a generated document: {dims}", {"format": "rtf", "rtf": text})
+            continue
         check_dims(ctx, "rtf", tabs, dims, dim_cases)
-        ctx.case(("rtf", gs, i % 3), any(tabs), "rtf")
-        want = [[[re.sub(r" +", " ", c) for c in r] for r in g] for g in gs]
-        wantp = [[r + [""] * (max(len(x) for x in g) - len(r)) for r in g] for g in want]
-        if tabs != wantp:
-            if len(gs) == 2 and len(tabs) == 1:
+        b_rtf.add(f"({coq_rdoc(d)}, {coq_str(text)}, {coq_tables(tabs)})", ("rtf", text))
+        ctx.case(("rtf", text), any(tabs), "rtf")
+        want = []
+        for b in d:
+            if b[0] == "t":
+                w = max(len(r) for r in b[1])
+                want.append([r + [""] * (w - len(r)) for r in b[1]])
+        if tabs != want:
+            def unpad(r):
+                r = list(r)
+                while r and r[-1] == "":
+                    r.pop()
+                return r
+            if len(tabs) < len(want) and [unpad(r) for tb in tabs for r in tb] == [unpad(r) for tb in want for r in tb]:
                 ctx.finding("rtf-adjacent-tables-merged",
                             "RTF: two tables separated by a short paragraph (< 100 source characters / <= 20 text characters) are returned as one table",
-                            {"format": "rtf", "grids": gs, "separator": sep, "got": tabs, "want": wantp})
+                            {"format": "rtf", "rtf": text, "got": tabs, "want": want})
             else:
-                ctx.finding("rtf-table-grid-mismatch", f"RTF: iterate_tables() differs from the source grids: got {tabs!r} want {wantp!r}",
-                            {"format": "rtf", "grids": gs, "separator": sep, "got": tabs, "want": wantp})
+                ctx.finding("rtf-table-grid-mismatch", f"RTF: iterate_tables() differs from the source grids: got {tabs!r} want {want!r}",
+                            {"format": "rtf", "rtf": text, "got": tabs, "want": want})
+    # the same kind of grids in the syntax word processors write (\\cellxN definitions, \\intbl), long separators: oracle + text-level model
+    for i in range(n // 3):
+        gs = [[[rplain(1, 2) for _ in range(rng.randint(1, 4))] for _ in range(rng.randint(1, 3))] for _ in range(rng.randint(1, 2))]
+        text = rtf_doc(gs, "\\pard " + "A long separating paragraph between the tables, well over one hundred characters in the source text. " * 2 + "\\par\n")
+        tabs, dims = rtf_impl(text)
+        if tabs is None:
+            ctx.finding("rtf-extraction-raised", f"RTF: read_rtf raised on a generated document: {dims}", {"format": "rtf", "rtf": text})
+            continue
+        b_rtf_t.add(f"({coq_str(text)}, {coq_tables(tabs)})", ("rtfcellx", text))
+        ctx.case(("rtfcellx", text), any(tabs), "rtf:cellx")
+        want = [[r + [""] * (max(len(x) for x in g) - len(r)) for r in g] for g in gs]
+        if tabs != want:
+            ctx.finding("rtf-table-grid-mismatch", f"RTF (\\cellx syntax): iterate_tables() differs from the source grids: got {tabs!r} want {want!r}",
+                        {"format": "rtf", "rtf": text, "got": tabs, "want": want})
+    # RTF outside the render grammar: real-world row syntax, groups, escapes, word-boundary traps
+    TOK = ["\\trowd", "\\trowd\\trgaph108", "\\cellx2000", "\\cellx4000 ", "\\intbl ", "\\cell", "\\cell ", "\\cell\n", "\\row", "\\row\n",
+           "\\pard", "\\pard ", "\\par", "\\par ", "\\par\n", "\\plain ", "{\\b bold}", "{\\i\\fs24 it}", "{\\*\\bkmkstart x}", "{\\pict 00ff}",
+           "{\\object{\\nested x}y}", "\\'e9", "\\'41", "\\'zz", "\\u8364?", "\\u8364 ", "\\u-10179?\\u-8704?", "\\u55357?\\u56832?", "\\u56832?",
+           "\\u70000?", "\\~", "\\~ ", "\\-", "\\_", "\\tab ", "\\tab", "\\line ", "\\emdash ", "\\bullet\\tab ", "\\lquote x\\rquote ",
+           "\\rows", "\\cells", "\\rowx", "\\trowd1", "\\row1 ", "\\fs-20 ", "\\li720-", " ", "  ", "\t", "\n", "\n\n\n\n", "{", "}", "word", "A", "z9",
+           "0123456789abcdef" * 4, "0123456789ABCDEF" * 3, "caf\u00e9", "\u4e2d", "\\page ", "\\sect\\sectd ", "x" * 60, "lorem ipsum dolor " * 4]
+    for i in range(n):
+        body = "".join(rng.choice(TOK) for _ in range(rng.randint(3, 40)))
+        if i % 3 == 0:
+            # realistic rows with \cellx definitions and \intbl, random separators
+            body = ""
+            for k in range(rng.randint(1, 3)):
+                for _ in range(rng.randint(1, 3)):
+                    nc = rng.randint(1, 3)
+                    body += "\\trowd" + "".join(f"\\cellx{(j + 1) * 2000}" for j in range(nc)) + "\n"
+                    body += "".join("\\intbl " + rng.choice(TOK[20:45] + RW) + "\\cell " for _ in range(nc)) + "\\row\n"
+                body += rng.choice(["", "\\pard\\par\n", "\\pard " + "filler text " * rng.randint(1, 12) + "\\par\n"])
+        text = "{\\rtf1\\ansi\\deff0 " + body + "}"
+        tabs, dims = rtf_impl(text)
+        if tabs is None:
+            ctx.count("rtf:extra-raised")
+            continue
+        check_dims(ctx, "rtf", tabs, dims, dim_cases)
+        b_rtf_t.add(f"({coq_str(text)}, {coq_tables(tabs)})", ("rtftext", text))
+        ctx.case(("rtftext", text), any(tabs), "rtf:extra")
+        parser = RTF._RtfParser(b"")
+        frag = "".join(rng.choice(TOK) for _ in range(rng.randint(1, 12)))
+        b_rtf_s.add(f"({coq_str(frag)}, {coq_str(parser._strip_rtf_simple(frag))})", ("rtfstrip", frag))
+        b_rtf_c.add(f"({coq_str(frag)}, {coq_list([coq_str(c) for c in parser._extract_table_cells(frag)])})", ("rtfcells", frag))
 
     # ---------------- witnesses of the refuted statements, on the real code
     witnesses(ctx, lambda name, fn, ty: B[name] if name in B else batch(name, fn, ty))
@@ -1706,7 +1828,7 @@ def run(ctx):
     from concurrent.futures import ThreadPoolExecutor
     todo = [(name, b) for name, b in B.items() if b.cases]
     ctx.extra["t_impl_s"] = round(__import__("time").time() - ctx.t0, 1)
-    with ThreadPoolExecutor(max_workers=6) as ex:
+    with ThreadPoolExecutor(max_workers=8) as ex:
         results = list(ex.map(lambda nb: coq_eval_shards(ctx, nb[0], PRE, nb[1].fn, nb[1].cases, shard=150, ty=nb[1].ty), todo))
     for (name, b), (ok, failing, log) in zip(todo, results):
         total += len(b.cases)
@@ -1726,11 +1848,11 @@ META = {
                  "correspondence through real files",
     "design_ref": "DESIGN.md §5 C13",
     "level_text": "Kernel-checked theorems: get_dim is the shape of get_table for every table type; for DOCX, ODT, ODP, PPTX, "
-                  "HTML, EPUB, ODS (plain and run-length-encoded), XLSX and XLS the modelled walker applied to the rendering "
+                  "HTML, EPUB, ODS (plain and run-length-encoded), XLSX, XLS and RTF the modelled walker applied to the rendering "
                   "of arbitrary source grids returns exactly those grids (all sizes, ragged rows, adjacent tables, order), "
                   "under the narrowest hypotheses that exclude the refuted cases; refutation witnesses (nested tables, "
                   "multi-paragraph HTML cells, ODS >100 empty repeats, XLSX header row, XLS duplicate headers) are proved in "
                   "Coq and replayed on the implementation. Models are tied to the code by generating real files per format.",
     "level_note": "Trusted: Coq kernel+VM; XML/HTML/openpyxl/xlrd parsing, int(), float(), whitespace set as oracles; the "
-                  "hand-written models (validated differentially); harness writers. RTF is covered by the property oracle only.",
+                  "hand-written models (validated differentially); harness writers.",
 }
